@@ -121,6 +121,7 @@ func CheckC06(c *Ctx) {
 	run.Count("base_strategies", n)
 	run.Floor("base_strategies", 32)
 	c.buyAndHold()
+	c.ringDecisions()
 	c.defaultsWiring("defaults-wiring", "strategy")
 	c.constructorParameters("defaults-wiring", "strategy")
 	run.Floor("default_constant_uses", 20)
